@@ -30,7 +30,7 @@ ASSUMPTIONS = [
 MAX_SKIP_FRACTION = 0.1
 REQUIRED_MONITORS = ["mean_photon", "fock_prob", "all_fock_probs", "parity_expectation", "number_expectation", "quad_expectation",
                      "fidelity_vacuum", "fidelity_coherent", "reduced_dm", "wigner", "poly_quad_expectation",
-                     "subset-order:raises-or-honours"]
+                     "subset-order:raises-or-honours", "state(modes=ordered-subset)"]
 
 
 def load():
@@ -89,6 +89,58 @@ def make_states(env, g, n, pure):
     return out, D
 
 
+def ordered_state_requests(case, rep, env, g, hbar):
+    """Result.state requested for an ordered subset of modes (run option `modes`): position k of the returned state
+    must answer for the k-th requested mode, in every representation."""
+    from thewalrus.quantum import density_matrix
+
+    sf, ops = env["sf"], env["ops"]
+    n = g.n
+    if n < 2:
+        return
+    rng = np.random.default_rng(case.get("qseed", 0) + 7)
+    D = {2: 9, 3: 7}[n]
+    dm = density_matrix(g.mu, g.V, cutoff=D, hbar=2)
+    f = np.sqrt(hbar / 2.0)
+    orders = [list(p) for k in range(1, n + 1) for p in itertools.permutations(range(n), k)]
+    rng.shuffle(orders)
+    for order in orders[:4]:
+        for backend, conf in (("gaussian", {}), ("bosonic", {}), ("fock", {"cutoff_dim": D, "pure": False})):
+            prog = sf.Program(n)
+            with prog.context as q:
+                if backend == "fock":
+                    ops.DensityMatrix(dm) | tuple(q)
+                else:
+                    ops.Gaussian(g.V * hbar / 2, g.mu * f, decomp=False) | tuple(q)
+            rep.monitor("state(modes=ordered-subset)")
+            lab = backend
+            try:
+                st = sf.Engine(backend, backend_options=conf).run(prog, modes=list(order)).state
+            except Exception as e:
+                rep.violation("%s.state" % backend, "ordered-modes-exception:" + type(e).__name__,
+                              "run(modes=%s) raised %s: %s" % (order, type(e).__name__, str(e)[:100]), case)
+                continue
+            if st.num_modes != len(order):
+                rep.violation("%s.state" % backend, "ordered-modes-count", "run(modes=%s) returned a state with %d modes" % (order, st.num_modes), case)
+                continue
+            # bosonic documents ascending order
+            exp_order = sorted(order) if backend == "bosonic" else list(order)
+            tol = 2e-6 if backend != "fock" else 5e-3
+            for k, m in enumerate(exp_order):
+                mr, vr = g.homodyne_dist(m, 0.4)
+                try:
+                    got = st.quad_expectation(k, 0.4)
+                except Exception as e:
+                    rep.violation("%s.state" % backend, "ordered-modes-observable-exception:" + type(e).__name__,
+                                  "quad_expectation on the state returned by run(modes=%s) raised %s: %s" % (order, type(e).__name__, str(e)[:100]), case)
+                    break
+                if abs(got[0] - mr * f) > tol * (1 + abs(mr)) or abs(got[1] - vr * f * f) > 5 * tol * (1 + vr):
+                    rep.violation("%s.state" % backend, "ordered-modes-wrong-mode", "run(modes=%s): position %d should answer for mode %d "
+                                  "(x_0.4: mean %.5f var %.5f) but reports mean %.5f var %.5f" % (
+                                      order, k, m, mr * f, vr * f * f, np.real(got[0]), np.real(got[1])), case)
+                    break
+
+
 def wigner_ref(mu1, V1, xs, ps, hbar):
     """Gaussian Wigner function of one mode on the grid, in units of hbar (W[i, j] = W(xs[j]?...) both layouts returned)."""
     f = np.sqrt(hbar / 2.0)
@@ -117,6 +169,7 @@ def run_case(case, rep, env):
         pass
     try:
         _check(case, rep, env, g, states, D, hbar)
+        ordered_state_requests(case, rep, env, g, hbar)
     finally:
         sf.hbar = 2
 
